@@ -498,6 +498,9 @@ macro_rules! msm_data_seg_frag {
                 }
                 let sig_mask_len = mask_len_u32(sig_mask);
                 let cell_cont_len = sig_mask_len * value.satellite_data.len();
+                if cell_cont_len > 64 {
+                    return Err(RtcmError::InvalidSatelliteSignalCount);
+                }
                 let mut cell_mask: u64 = 0;
                 for (sat_id, sig_id) in cell_vec {
                     let cell_indx = sat_indx[sat_id as usize - 1] * sig_mask_len
@@ -529,6 +532,9 @@ macro_rules! msm_data_seg_frag {
 
                 let sat_len = mask_len_u64(sat_mask);
                 let sig_len = mask_len_u32(sig_mask);
+                if sat_len * sig_len > 64 || sat_len * sig_len == 0 {
+                    return Err(RtcmError::InvalidSatelliteSignalCount);
+                }
 
                 let cell_mask = par.parse::<U64>(sat_len * sig_len)?;
                 if let Some((sat_vec, cell_vec)) = cell_mask_id_vec(sat_mask, sig_mask, cell_mask) {
